@@ -81,3 +81,30 @@ pub fn judge_stream(calls: &[Vec<u8>]) -> Judged {
 pub fn desc_calls(calls: &[Vec<u8>]) -> serde_json::Value {
     serde_json::json!({"calls_on_one_fresh_default_parser": calls.iter().map(|c| hex(c)).collect::<Vec<_>>()})
 }
+
+/// An index-addressable generator of streams (calls on one fresh default parser); None = index skipped
+/// (combination outside the domain, e.g. a template of record size 0).
+#[derive(Clone)]
+pub struct StreamGen {
+    pub name: String,
+    pub size: u64,
+    pub gen: std::sync::Arc<dyn Fn(u64) -> Option<Vec<Vec<u8>>> + Send + Sync>,
+}
+pub fn stream_gen(name: &str, size: u64, f: impl Fn(u64) -> Option<Vec<Vec<u8>>> + Send + Sync + 'static) -> StreamGen {
+    StreamGen { name: name.to_string(), size, gen: std::sync::Arc::new(f) }
+}
+impl StreamGen {
+    pub fn into_space(self, judge: impl Fn(&[Vec<u8>]) -> Eval + Send + Sync + 'static) -> Box<dyn Space> {
+        let g = self.gen.clone();
+        let g2 = self.gen.clone();
+        space(
+            &self.name,
+            self.size,
+            move |i| match g(i) {
+                Some(c) => judge(&c),
+                None => Eval { key: 0, transitions: 0, issues: vec![], tags: vec!["skipped-outside-domain"] },
+            },
+            move |i| g2(i).map(|c| desc_calls(&c)).unwrap_or(serde_json::json!("skipped: outside the domain")),
+        )
+    }
+}
